@@ -2,7 +2,6 @@ use crate::{
     eval::{eval, funcall, DummyEval},
     list, lists, Error, TulispContext, TulispObject,
 };
-use std::cmp::Ordering;
 use tulisp_proc_macros::crate_fn;
 
 pub(crate) fn add(ctx: &mut TulispContext) {
@@ -66,26 +65,40 @@ pub(crate) fn add(ctx: &mut TulispContext) {
         pred: TulispObject,
     ) -> Result<TulispObject, Error> {
         let pred = eval(ctx, &pred)?;
-        let mut vec: Vec<_> = seq.base_iter().collect();
-        let mut err = None;
-        vec.sort_by(|v1, v2| {
-            if funcall::<DummyEval>(ctx, &pred, &list!(v1.clone(), v2.clone()).unwrap())
-                .map(|v| v.null())
-                .unwrap_or_else(|x| {
-                    err = Some(x);
-                    false
-                })
-            {
-                Ordering::Less
-            } else {
-                Ordering::Greater
+        let vec: Vec<_> = seq.base_iter().collect();
+        // Stable merge sort which makes no assumption about the predicate, and
+        // stops at the first error it raises.
+        fn merge_sort(
+            ctx: &mut TulispContext,
+            pred: &TulispObject,
+            items: Vec<TulispObject>,
+        ) -> Result<Vec<TulispObject>, Error> {
+            if items.len() < 2 {
+                return Ok(items);
             }
-        });
-        if let Some(err) = err {
-            return Err(err);
+            let mut left = items;
+            let right = left.split_off(left.len() / 2);
+            let right = merge_sort(ctx, pred, right)?;
+            let left = merge_sort(ctx, pred, left)?;
+            let mut merged = Vec::with_capacity(left.len() + right.len());
+            let (mut left, mut right) = (left.into_iter().peekable(), right.into_iter().peekable());
+            while let (Some(l), Some(r)) = (left.peek(), right.peek()) {
+                let right_first =
+                    funcall::<DummyEval>(ctx, pred, &list!(r.clone(), l.clone())?)?.is_truthy();
+                if right_first {
+                    merged.push(right.next().unwrap());
+                } else {
+                    merged.push(left.next().unwrap());
+                }
+            }
+            merged.extend(left);
+            merged.extend(right);
+            Ok(merged)
         }
+        let vec = merge_sort(ctx, &pred, vec)?;
         let ret = vec
             .iter()
+            .rev()
             .fold(TulispObject::nil(), |v1, v2| TulispObject::cons(v2.clone(), v1));
         Ok(ret)
     }
